@@ -157,7 +157,7 @@ def run_history(h, ns, g=None, d=None):
             report.append(dict(step=k, op=op, kind='exc', exc=type(e).__name__))
         MON[0] = False
         names = h_names
-        observations.append([done] + ident_seq(live, names))
+        observations.append(dict(seq=[done] + ident_seq(live, names), canon=[canon(live[n]) if n in live else None for n in names]))
         after = snapshot(live)
         if op[0] == 'share':
             # packets the user linked by putting one object in both may from now on change together
